@@ -23,6 +23,8 @@ def mk_pel(rng, eid, plid=None, bmc=None, ref=None, sev=0x40, flags=0x2000, crea
     if extra_secs:
         secs += [genpel.gen_eh(rng), genpel.gen_ud(rng, creator=creator)][: rng.randrange(0, 3)]
     r = rng.random()
+    if extra_secs and rng.random() < .3 and creator == 'O':
+        secs.append(genpel.gen_hostile_json_ud(rng))          # text that output code trips over
     if extra_secs and rng.random() < .15 and creator == 'O':
         secs.insert(rng.randrange(1, len(secs) + 1), failing_plugin_ud(rng))    # decodes, with an error note
     if lead and r < .35:
